@@ -240,14 +240,14 @@ def semantic_cases(rng, results, per_case, limit):
 
 # ------------------------------------------------------------------------------------------- C01
 
-C01_WORDS = ["(", ")", "!", ",", "-a", "-and", "-o", "-or", "-true", "-false", "-print"]
+C01_WORDS = ["(", ")", "!", ",", "-a", "-and", "-o", "-or", "-true", "-false", "-print", "-depth"]
 
 
 @register
 class C01(Prop):
     id = "C01"
     theorems = ["C01_tokens", "C01_unique", "C01_no_prefix", "C01_words"]
-    rule = ("all word sequences over the 11-word alphabet ( ) ! , -a -and -o -or -true -false -print up to the "
+    rule = ("all word sequences over the 12-word alphabet ( ) ! , -a -and -o -or -true -false -print -depth up to the "
             "stated length, exhaustively; random longer sequences (length 6..40); random well-formed expressions of "
             "depth <= 8 over the whole vocabulary; compared: the tree, or the fact of rejection. Non-trivial: "
             "sequences of at least 2 words; distinct = distinct inputs")
@@ -441,6 +441,7 @@ SHORT_ALPHABET = list("0179+-/kxu=r,'\"\\%{f XU")
 class C03(Prop):
     id = "C03"
     theorems = []
+    logger = True          # also run in a process with a logger installed at every level
     release = True
     rule = ("grammar-aware inputs, every prefix and random single-character mutations of valid inputs, exhaustive "
             "argument strings (length <= 2 quick / 3 thorough) over a 20-symbol alphabet after every argument-taking "
@@ -494,6 +495,14 @@ class C03(Prop):
             out.append((PC("-printf 'a\\%03ob\\n'" % v), "octal-escape"))
             out.append((PC("-fprintf f '\\%03o'" % v), "octal-escape"))
         out += [(PC(s), "scale") for s in gen.scale_cases(rng)]
+        # trees built through the public constructors (values a parse never yields included): compile must
+        # answer with a program or an error for every tree of the shape a parse returns
+        for code in [0, 0o777, 0o1000, 0xd7ff, 0xd800, 0xdabc, 0xdfff, 0xe000, 0xffff]:
+            out.append(("TC 0 - 2f A PrintFormatted 3 F Name X Ascii %d X Newline" % code, "api-tree"))
+            out.append(("TC 1 0 2f Or T Name S78 A FilePrintFormatted S66 1 X Ascii %d" % code, "api-tree"))
+        for _ in range(2000 if tier == "quick" else 40000):
+            out.append(("TC %s %s 2f %s" % (rng.choice("01"), rng.choice(["-", "0", "1", "4294967295"]),
+                                            gen.tree(rng, rng.randint(0, 4), api_only=False, unsupported=0.15)), "api-tree"))
         # no blank where the lexer needs none: punctuation glued to its neighbours, options anywhere
         for _ in range(3000 if tier == "quick" else 60000):
             ws = gen.words_with_options(rng, rng.randint(1, 4), nopts=2, unsupported=0.1)
@@ -513,6 +522,10 @@ class C03(Prop):
         return out
 
     def project(self, case, line):
+        if " || " not in line and line.startswith("clock "):
+            # a tree compiled through the API (no parse part): clock T COK ... / CERR ... / CPANIC
+            c = " " + line
+            return "API " + ("CPANIC" if "CPANIC" in c else "COK" if " COK " in c else "CERR" if " CERR " in c else line.split(" ")[2] if len(line.split(" ")) > 2 else line)
         p = parse_part(line).split(" ")[0]
         c = compile_part(line)
         cls = "" if not c else ("CPANIC" if "CPANIC" in c else "COK" if " COK " in c else "CERR" if " CERR " in c else c.split(" ")[0])
@@ -712,6 +725,13 @@ class C05(Prop):
                         out.append((PC(" ".join([m[0], flipped] + m[2:])), "case-flipped-argument"))
                     out.append((P(" ".join(m[:-1])), "missing-argument"))
                     out.append((P(" ".join(m[:-1]) + " )"), "missing-argument"))
+        for d1 in "01789":
+            for d2 in "0789":
+                for d3 in "0189":
+                    out.append((P("-printf 'a\\%s%s%sb'" % (d1, d2, d3)), "digit-escape"))
+        for t in ["\\+12", "\\-12", "\\ 12", "\\1+2", "\\0x1", "\\08", "\\8", "%+5s", "%-5s", "%05s", "%5p", "%.3s", "%#m"]:
+            out.append((P("-printf '%s'" % t), "digit-escape"))
+            out.append((P("-true -fprintf out 'x%sy\\n'" % t), "digit-escape"))
         for lead in ["-depth", "-threads 4", "-depth -threads 2"]:
             for nxt in ["-amin 5", "-atime +2", "-anewer ref", "-and -true", "-a -true", "-a-print", "-and-true", "-a-name x", "-a", "-and", "-a ", "-o -true"]:
                 out.append((P(lead + " " + nxt), "after-leading-option"))
@@ -1087,7 +1107,13 @@ def oracle_program(case, impl, model):
 
 OUT_ACTIONS = ["-print", "-print0", "-print-file-fid", "-fprint f1", "-fprint f2", "-fprint0 f1", "-fprint0 f3",
                "-printf '%p\\n'", "-printf '%p'", "-printf 'x\\n%s'", "-printf ''", "-fprintf f1 '%p\\n'",
-               "-fprintf f2 '%p'", "-fprintf f1 ''", "-quit"]
+               "-fprintf f2 '%p'", "-fprintf f1 ''",
+               # file names an implementation might treat specially: empty, the standard streams, a dash
+               "-fprint ''", "-fprint0 \"\"", "-fprintf '' '%p'", "-fprint /dev/stdout", "-fprint0 /dev/stdout",
+               "-fprint /dev/stderr", "-fprint -", "-fprintf /dev/stdout '%p\\n'",
+               # a raw line feed inside literal format text (not the \n escape): in the middle, at the end
+               "-printf '%p\nz'", "-printf 'a\nb %s\n'", "-printf '%p z\n'", "-fprintf f1 'x\ny'",
+               "-quit"]
 
 
 @register
@@ -1164,7 +1190,8 @@ class C11(Prop):
         out = []
         pats = ["foo", "Foo", "f*", "f?o", "[f]oo", "a\\b", "core", "README", "x y", "zz", "ЖУРНАЛ", "ÉTÉ*", "123", "*.*"]
         kws = ["-name", "-iname", "-path", "-ipath"]
-        acts = ["-print", "-print0", "-printf '%p\\n'", "-fprint o1", "-fprint0 o1", "-fprint o2", "-print-file-fid", "-printf '%p'"]
+        acts = ["-print", "-print0", "-printf '%p\\n'", "-fprint o1", "-fprint0 o1", "-fprint o2", "-print-file-fid", "-printf '%p'",
+                "-fprint /dev/stdout", "-fprint0 /dev/stdout", "-fprint ''", "-fprint -", "-fprint /dev/stderr"]
         for _ in range(4000 if tier == "quick" else 80000):
             n = rng.choice([0, 1, 2, 3, 5, 8, 12, 20])
             items = []
@@ -1245,6 +1272,9 @@ class C12(Prop):
                    + ["A PrintFormatted 1 F %s" % f for f in ["Depth", "DeviceNumber", "FsType", "SymbolicTarget",
                                                               "PermissionsSymbolic", "TypeSymlink", "SecurityContext"]]
                    + ["A PrintFormatted 1 X Clear", "A FilePrintFormatted S66 2 L S61 X Clear"])
+        for code in [0, 0o777, 0o1000, 0xd7ff, 0xd800, 0xdabc, 0xdfff, 0xe000, 0xffff]:
+            out.append(("TC 0 - 2f A PrintFormatted 3 F Name X Ascii %d X Newline" % code, "api-only-code"))
+            out.append(("TC 0 - 2f And T Name S2a.2e.63 A FilePrintFormatted S66 2 X Ascii %d L S61" % code, "api-only-code"))
         for s in singles:
             for d_ in ("0", "1"):
                 for t_ in ("-", "0", "1", "7"):
@@ -1266,6 +1296,10 @@ class C12(Prop):
             for arg in ["1000", "007", "0", "''", '""', "-1", "root", "'a b'", "x*"]:
                 for pre in ["", "-depth ", "-threads 1 ", "-name x "]:
                     out.append((PC("%s%s %s" % (pre, kw, arg)), "unsupported-word-argument"))
+        for kw in ["-maxdepth", "-mindepth"]:
+            for n_ in ["0", "00", "1", "3", "4294967294", "4294967295", "4294967296", "18446744073709551615", "-1", "+1", "x", "''"]:
+                for ctx in ["%s", "-depth %s", "-name foo %s", "-name foo -o ( %s -print )", "! %s", "%s -print", "-threads 2 %s -a -true"]:
+                    out.append((PC(ctx % (kw + " " + n_)), "refused-option-number"))
         for kw in gen.BARE_TESTS_UNSUP + gen.BARE_ACTIONS_UNSUP:
             for pre in ["", "-depth ", "-threads 1 ", "-depth -name x ", "-name x -o "]:
                 for post in ["", " -depth", " -o -print", " -print"]:
@@ -1346,6 +1380,10 @@ class C13(Prop):
                   "-threads 1 -true -threads 2 -o -threads 3", "-maxdepth 3", "-true -mindepth 1", "-depth -depth",
                   "-threads 4294967295", "-threads 4294967296"]:
             out.append((PC(s), "directed"))
+        # one compiled expression rendered several times: every rendering carries the thread count
+        for s in ["-threads 7 -name x", "-name x -threads 7", "-threads 0 -print", "-depth -threads 4294967295", "-name x", "-depth"]:
+            for paths in (["/dev/mdt0", "/dev/mdt1"], ["/a", "/a", "/b"], ["", "x", ""]):
+                out.append(("R %s %d %s" % (hx(s), len(paths), " ".join(hx(p_) for p_ in paths)), "repeated-rendering"))
         return out
 
     def nontrivial(self, case, line):
@@ -1354,14 +1392,14 @@ class C13(Prop):
 
 # ------------------------------------------------------------------------------------------- C14
 
-C14_ALPHABET = ["%", "\\", "{", "}", ":", "A", "p", "q", "0", "1", "7", "8", "n", "f", "@", "x"]
+C14_ALPHABET = ["%", "\\", "{", "}", ":", "A", "p", "q", "0", "1", "7", "8", "n", "f", "@", "x", "+", "-"]
 
 
 @register
 class C14(Prop):
     id = "C14"
     theorems = []
-    rule = ("all strings up to length 4 (quick) / 5 (thorough) over the 16-symbol alphabet % \\ { } : A p q 0 1 7 8 n f @ x, "
+    rule = ("all strings up to length 4 (quick) / 5 (thorough) over the 18-symbol alphabet % \\ { } : A p q 0 1 7 8 n f @ x + -, "
             "every documented directive and escape individually and in context, random strings up to length 60; "
             "compared: the element list, or the fact of rejection. Non-trivial: strings of length >= 2")
 
@@ -1402,6 +1440,7 @@ class C14(Prop):
 class C15(Prop):
     id = "C15"
     theorems = []
+    logger = True          # also run in a process with a logger installed at every level
 
     def project(self, case, line):
         # against the model: the program as read back; the byte-for-byte comparisons this property is
@@ -1444,6 +1483,14 @@ class C15(Prop):
             out.append((PC(" ".join(ws), "/dev/x"), "base-refused"))
             ws = gen.expr_words(rng, 3, unsupported=0.2)
             out.append((PC(mutate(rng, " ".join(ws)), "/dev/x"), "base-rejected"))
+        # trees built through the public constructors: the same VALUE with one shared allocation on both sides
+        # of an operator and with two separate ones must compile alike (they are equal inputs)
+        for _ in range(150 if tier == "quick" else 3000):
+            t = gen.tree(rng, rng.randint(0, 3), api_only=False, unsupported=0.0)
+            opn = rng.choice(["And", "Or", "List"])
+            wrap_ = rng.choice(["%s", "Not %s", "And T Name S78 %s", "Or %s A PrintNull"])
+            out.append(("TC 0 - 2f " + wrap_ % ("Dup%s %s" % (opn, t)), "shared-subtree"))
+            out.append(("TC 0 - 2f " + wrap_ % ("%s %s %s" % (opn, t, t)), "shared-subtree"))
         # three repetitions that land in the same process (batch length a multiple of the shard
         # count), two that land in other processes (shifted by one), all with unrelated compilations
         # in between
@@ -1494,12 +1541,14 @@ class C15(Prop):
         return None
 
     def post(self, results):
+        from .core import expand_dups
         seen, bad = {}, []
         for c, i, m in results:
             k = strip_epoch(i)
-            if c in seen and seen[c] != k:
+            key = expand_dups(c)      # a tree with a shared subtree and the same tree without sharing are equal inputs
+            if key in seen and seen[key] != k:
                 bad.append((c, "two compilations of the same input give different results"))
-            seen.setdefault(c, k)
+            seen.setdefault(key, k)
         return bad
 
 
@@ -1634,6 +1683,7 @@ KW_CLASS = [(k, "num") for k in gen.TIME_KW + gen.U32_KW + gen.U64_KW + ["-threa
 class C18(Prop):
     id = "C18"
     theorems = []
+    logger = True          # also run in a process with a logger installed at every level
     rule = ("every argument-taking keyword x invalid-from-the-start argument words and end of input, after 0..3 valid "
             "primaries and before 0..2 more; unknown words at random positions; well-formed expressions damaged by one "
             "or two edits; compared: the kind of error, the keyword it names, the word it quotes and whether an "
@@ -1724,7 +1774,7 @@ class C19(Prop):
         for i in range(n):
             d = rng.choice([1, 2, 3, 4, 6, 8, 12])
             out.append(("T " + gen.tree(rng, d, True, unsupported=0.1, actions=0.35), "tree-depth<=%d" % d))
-        els = ["X Newline", "L S61", "F Name", "X TabHorizontal", "X Ascii 10", "L Sa"]
+        els = ["X Newline", "L S61", "F Name", "X TabHorizontal", "X Ascii 10", "L Sa", "X Clear", "X Null"]
         for k in range(0, 4):
             for combo in itertools.product(els, repeat=k):
                 f = "%d%s" % (k, "".join(" " + e for e in combo))
